@@ -341,6 +341,8 @@ def run(chk):
     _ensuresum_rule(chk, prog)
     _capnull_rule(chk, prog)
     _chainbuild_rule(chk, prog)
+    _validatefirst_rule(chk, prog)
+    _clearkeeps_rule(chk, prog)
     from jv.report import must_fire
     must_fire(chk, "C04-ENSURESUM", _ensuresum_rule, "c04_ensuresum.c", ["bad_product", "bad_sum"])
 
@@ -698,7 +700,7 @@ def _index_rule(chk, prog):
                             chk.violation(rule, "value.c", fn.name, n.text()[:40], n.loc,
                                           "`%s` is reached on a path where %s has not been established" % (n.text(), " and ".join(miss)))
                 S = T(S, n)
-    if total < 12:
+    if total < 6:
         raise AnalysisBroken("value.c: only %d variable subscripts of container storage analysed" % total)
 
 
@@ -829,3 +831,82 @@ def _chainbuild_rule(chk, prog):
                                   "`%s` is executed for every level but `%s` never moves: each level overwrites the one before, and a "
                                   "chain of three or more levels comes out with only its first and last" % (st.text()[:60], v))
     chk.floor(rule, 1, n)
+
+
+MUTATORS = ("janet_buffer_setcount", "janet_array_setcount", "janet_buffer_push_u8", "janet_array_push", "janet_buffer_ensure",
+            "janet_array_ensure", "janet_buffer_extra", "janet_buffer_push_bytes")
+PANICS = ("janet_panic", "janet_panicf", "janet_panicv", "janet_panics")
+
+
+def _validatefirst_rule(chk, prog):
+    """put / set on an array or buffer may extend it (an index past the end zero- or nil-fills up to it).  The
+    operation as a whole either happens or raises: every reason to refuse it - a non-integer index, a value a buffer
+    cannot hold - is found before the container is touched.  A check that comes after the growth still raises the same
+    error, but leaves the container longer than it was."""
+    rule = "C04-VALIDATEFIRST"
+    chk.rule(rule, "in janet_put / janet_putindex no path reaches a raise after a call that has already grown or modified the container")
+    tu = prog.tus["value.c"]
+    # helpers of value.c that modify a container (one level)
+    helpers = set(f.name for f in tu.funcs.values() if any(c.k == "call" and c.callee in MUTATORS for c in f.nodes)
+                  and f.name not in ("janet_put", "janet_putindex", "janet_putkey"))
+    n = 0
+    for name in ("janet_put", "janet_putindex"):
+        fn = tu.funcs.get(name)
+        if fn is None:
+            raise AnalysisBroken("value.c: %s not found" % name)
+        chk.analysed(fn)
+        n += 1
+        chk.instance(rule)
+
+        def transfer(st, x):
+            if x.k == "call" and (x.callee in MUTATORS or x.callee in helpers):
+                return st | {("mut", x.id)}
+            return st
+        IN, OUT = flow.forward(fn, frozenset(), transfer, lambda a, b: a | b)
+        bad = None
+        for x, st in flow.states_at(fn, IN, transfer):
+            if st and x.k == "call" and x.callee in PANICS and bad is None:
+                bad = (x, st)
+        if bad is None:
+            chk.ok(rule, "%s: every refusal precedes the first modification" % name)
+        else:
+            x, st = bad
+            mid = sorted(st)[0][1]
+            m = next(c for c in fn.nodes if c.id == mid)
+            chk.violation(rule, "value.c", name, "raise-after-grow", x.loc,
+                          "%s can raise at %s (`%s`) after `%s` at %s has already changed the container: the refused operation leaves an "
+                          "array or buffer that is longer than before" % (name, x.loc, x.text()[:50], m.text()[:40], m.loc))
+    chk.floor(rule, 2, n)
+
+
+def _clearkeeps_rule(chk, prog):
+    """table/clear removes the entries of a table; it is not a re-initialisation.  What else the table carries - its
+    prototype - stays.  The constructor helper sets proto = NULL, so a clear that delegates to it silently cuts the
+    table off its prototype chain."""
+    rule = "C04-CLEARKEEPS"
+    chk.rule(rule, "janet_table_clear (and what it calls) writes only the bucket bookkeeping of the table: data, count, deleted, capacity - never proto")
+    from jv.callgraph import CallGraph
+    fn = prog.need_func("janet_table_clear", "table.c")
+    chk.analysed(fn)
+    tu = prog.tus["table.c"]
+    work, seen = [fn], set()
+    writers = []
+    while work:
+        f = work.pop()
+        if f.name in seen:
+            continue
+        seen.add(f.name)
+        for x in f.nodes:
+            if x.k == "asg" and x.kids[0].k == "mem" and x.kids[0].rec == "JanetTable" and x.kids[0].field == "proto":
+                writers.append((f, x))
+            if x.k == "call" and x.callee in tu.funcs:
+                work.append(tu.funcs[x.callee])
+    chk.instance(rule)
+    if writers:
+        f, x = writers[0]
+        chk.violation(rule, "table.c", "janet_table_clear", "proto", x.loc,
+                      "janet_table_clear reaches `%s` in %s: clearing a table resets its prototype, so lookups that fell back along the "
+                      "chain before the clear answer nil afterwards" % (x.text()[:40], f.name))
+    else:
+        chk.ok(rule, "janet_table_clear (via %s) never writes proto" % ", ".join(sorted(seen)))
+    chk.floor(rule, 1)
